@@ -16,10 +16,10 @@ FAULTS = {"undecodable", "dirnamed", "dangling", "unserialisable", "faultDefines
 
 def content(kind, rnd):
     if kind == "defines":
-        return (":root{--bg:#000000; --c:%s; --t:#767676} .d{color:#808080;background-color:#ffffff} .d2{color:var(--t)}\n"
-                % rnd.choice(["#777777", "#8a8a8a"])).encode()
+        return (":root{--bg:#000000; --c:%s; --t:#767676} .d{color:#808080;background-color:#ffffff} .d2{color:var(--t)} "
+                ".len{color: rgb(119, 119, 119)}\n" % rnd.choice(["#777777", "#8a8a8a"])).encode()
     if kind == "usesOwn":
-        return b":root{--c:#7a7a7a} .u{color:var(--c)} .v{color:#999;background-color:#fff}\n"
+        return b":root{--c:#7a7a7a} .u{color:var(--c)} .v{color:#999;background-color:#fff} .len{color: rgb(120, 120, 120); background-color: white}\n"
     if kind == "usesOther":
         return rnd.choice([b".box{color:#777777;background-color:var(--bg, white)} .t{color:var(--c)}\n",
                            b".tip{color:var(--c);background-color:#ffffff} .k{color:#6f6f6f}\n",
@@ -113,6 +113,11 @@ def one_tree(job):
         evs = []
         info = {"tree": list(tree), "paths": paths, "args": args, "runs": []}
         before0 = clilib.listing(root)
+        if seed % 3 == 0:
+            # history: an earlier run over the same tree with OTHER settings (its outputs must be replaced, not patched)
+            prior = ["--mode", str(settings[0])] + ([] if settings[1] else ["--premium"]) + (["--default-bg", settings[2]] if settings[2] else [])
+            clilib.run_cli(root, prior, cwd)
+            info["prior_args"] = prior
         for n in (1, 2):
             before = clilib.listing(root)
             res = clilib.run_cli(root, args, cwd)
@@ -218,7 +223,8 @@ def main():
     interesting = [tr for tr in trees if any(k in FAULTS or k == "cm" or k == "usesOther" for k in tr)]
     interesting += [tr for tr in trees if "faultDefines" in tr and "usesOther" in tr] * 3
     chosen = [rnd.choice(interesting) if k % 4 else rnd.choice(trees) for k in range(n)] if t == "quick" else trees * 2
-    jobs = [(tr, rnd.randrange(1 << 30), (k % 3, bool((k // 3) & 1), rnd.choice([None, None, "#000000", "white"]))) for k, tr in enumerate(chosen)]
+    jobs = [(tr, rnd.randrange(1 << 30), (k % 3, bool((k // 3) & 1), rnd.choice([None, None, "#000000", "white", "var(--bg, white)", "var(--c, #fafafa)"])))
+            for k, tr in enumerate(chosen)]
     res = vlib.pool_map(one_tree, jobs, chunksize=2)
     behs = [b for b, _ in res]
     agg = vlib.validate_traces("TrBatch", behs, min_per_shard=10)
